@@ -109,6 +109,10 @@ EXTRA = {
    '// reflect.Type.FieldByName reports',
    '//@ ensures [C11] field: ncalls() == 1 && res(0) == nil && !typeis(rvIface(unwrap(res2(0))), "*env.Env") && !rvValid(rvMethodNamed(unwrap(res2(0)), expr.Name)) && rvKind(memberRecv(res2(0))) == reflect.Struct && typeHasField(rvTypeOf(memberRecv(res2(0))), expr.Name) ==> runInfo.err == nil && runInfo.rv == rvFieldPath(memberRecv(res2(0)), typeFieldIndex(rvTypeOf(memberRecv(res2(0))), expr.Name))',
    '//@ ensures [C11] method: ncalls() == 1 && res(0) == nil && !typeis(rvIface(unwrap(res2(0))), "*env.Env") && rvValid(rvMethodNamed(unwrap(res2(0)), expr.Name)) ==> runInfo.err == nil && runInfo.rv == rvMethodNamed(unwrap(res2(0)), expr.Name)'],
+ "invokeSliceExpr": ['// C10: x[lo:hi] on a slice is Go\'s x[lo:hi]: the window lo..hi of the SAME storage with the capacity of x from lo on',
+   '// (reflect.Slice3(lo, hi, cap(x))); x[lo:hi:max] is reflect.Slice3(lo, hi, max); a missing bound is 0 / len(x)',
+   '//@ traces (reflect.Value).Slice3',
+   '//@ ensures [C10] two: runInfo.err == nil && expr.Cap == nil && rvKind(unwrap(res2(0))) == reflect.Slice ==> ncalls() >= 2 && calleeIs(ncalls()-1, "(reflect.Value).Slice3") && arg(ncalls()-1) == unwrap(res2(0)) && res3(ncalls()-1) == rvCap(unwrap(res2(0)))'],
  "invokeItemExpr": [
    '//@ ensures [C07] order: ncalls() >= 1 && ncalls() <= 2 && calleeIs(0, "invokeExpr") && arg(0) == expr.Item && (ncalls() == 2 ==> res(0) == nil && calleeIs(1, "invokeExpr") && arg(1) == expr.Index) && (runInfo.err == nil ==> ncalls() == 2)'],
  "invokeLenExpr": ['//@ ensures [C07] once: ncalls() == 1 && arg(0) == expr.Expr'],
@@ -179,7 +183,10 @@ EXTRA = {
    '// these two operands - so its storage-sharing and growth behaviour is Go\'s, never a shortcut)',
    '//@ ensures [C10] goappend: typeElem(rvTypeOf(lhsV)) == typeElem(rvTypeOf(rhsV)) ==> result.1 == nil && result.0 == rvAppendSlice(lhsV, rhsV)'],
  "makeValue": ['//@ requires [C01] t != nil', '//@ ensures [C01] okv: rvValid(result.0)'],
- "equal": ['//@ free_ensures rel: result == equalR(lhsV, rhsV)', '//@ ensures [C06] nil: (nilV(lhsV) || nilV(rhsV)) ==> result == (nilV(lhsV) && nilV(rhsV))',
+ "equal": ['//@ free_ensures rel: result == equalR(lhsV, rhsV)',
+   '// C06: containers compare structurally: two slices (or two maps) are equal exactly when reflect.DeepEqual says so for',
+   '// what the two operands hold - no shortcut through identity of storage',
+   '//@ ensures [C06] containers: !nilV(lhsV) && !nilV(rhsV) && rvKind(eqD(lhsV)) == rvKind(eqD(rhsV)) && (rvKind(eqD(lhsV)) == reflect.Slice || rvKind(eqD(lhsV)) == reflect.Map) ==> result == deepEqS(rvIface(eqD(lhsV)), rvIface(eqD(rhsV)))', '//@ ensures [C06] nil: (nilV(lhsV) || nilV(rhsV)) ==> result == (nilV(lhsV) && nilV(rhsV))',
            '//@ ensures [C06] core: !nilV(lhsV) && !nilV(rhsV) && corePair(eqD(lhsV), eqD(rhsV)) ==> result == eqV(lhsV, rhsV)'],
  "isNil": ['//@ ensures [C06] def: result == nilV(v)'],
  "tryToBool": ['// truthyV is DEFINED as the first result of tryToBool (a function of the value); the truthiness table is below',
@@ -212,6 +219,7 @@ for f in pure:
     if f in ERR:
         ls.append("//@ ensures [C08] nosentinel: notSentinel(result.1) && result.1 != ErrInterrupt")
     if f == "processCallReturnValues":
+        ls += ["//@ traced_optin rvs -> result.1; result.0"]
         ls += ["// C11: all results of a Go function come back: none -> nil, one -> that value (several -> a list, not under contract)",
                "//@ ensures [C11] none: !isRunVMFunction && len(rvs) == 0 ==> result.0 == nilValue && result.1 == nil",
                "//@ ensures [C11] one: !isRunVMFunction && len(rvs) == 1 ==> result.0 == rvs[0] && result.1 == nil",
@@ -239,6 +247,20 @@ out.append('''//@ func (*Error).Error
 //@ loop 2 invariant (args == nil || fresh(base(args))) && ncalls() == indexExpr && 0 <= indexExpr && evalsPrefix(callExpr.SubExprs) && (forall k int :: 0 <= k && k < ncalls() ==> res(k) == nil)
 // C20: f(xs...) is rejected as "not a list" only when what xs DENOTES (unwrapped) is neither a slice nor an array
 //@ callsite newStringError ~call_is_variadic_but_last_parameter [C20] spreadlist: ncalls() >= 1 && rvKind(unwrap(res2(ncalls()-1))) != reflect.Slice && rvKind(unwrap(res2(ncalls()-1))) != reflect.Array
+
+// C11: the adapter that lets Go call a script function as a callback: it calls the script function with exactly the values Go
+// passed (after a background context), ALWAYS looks at the (value, error) pair the script function returned, and returns
+// normally only when that error was nil (an error inside the callback is raised as a panic, which the recover region of
+// the enclosing script call turns into its error); one declared result receives the value converted to the declared type
+//@ func convertVMFunctionToType$1
+//@ props C11
+//@ may_panic
+//@ modifies *
+//@ traces processCallReturnValues convertReflectValueToType
+//@ ensures [C11] errsurfaces: ncalls() >= 1 && calleeIs(0, "processCallReturnValues") && res(0) == nil
+//@ ensures [C11] oneresult: rtNumOut(rt) == 1 ==> ncalls() == 2 && calleeIs(1, "convertReflectValueToType") && arg(1) == res2(0) && res(1) == nil && len(result) == 1 && result[0] == res2(1)
+//@ loop 0 invariant ncalls() == 0
+//@ loop 1 invariant ncalls() >= 1 && calleeIs(0, "processCallReturnValues") && res(0) == nil
 
 //@ func (*runInfoStruct).callVMFunctionDirect
 //@ props C04 C02 C08
